@@ -57,6 +57,11 @@ CHECKS = {
             'arguments received by each continuation and the final outcome are compared with a model of the statement.',
             'Trusts the reference model and the small value domains listed in the evidence rule; steps are synchronous.',
             'DESIGN.md 3 C13'),
+    'C10': sched('the barrier oracle on work chains that register n loop futures / launched children by return ToContext, '
+                 'to_context or both (outcome value / exception / killed child): at the entry of the next step every '
+                 'awaited item is done and in ctx, a failing or killed item ends the chain EXCEPTED with that error and '
+                 'the next step never runs, a later assignment replaces the value. Completion events are placed at every '
+                 'choice point in every order (J unbounded), plus <=1 pause/play.', 'DESIGN.md 3 C10'),
     'C11': ('input-enumerator',
             'bounded-exhaustive enumeration of input specs x nested input dictionaries on the real Process constructor, '
             'against a reference model of port namespaces',
@@ -86,6 +91,16 @@ CHECKS = {
             'options must be rejected.',
             'Trusts the selection model (written from the statement); empty rule lists and rules naming an ancestor of '
             'another rule are outside the alphabet.', 'DESIGN.md 3 C15'),
+    'C07': ('input-enumerator',
+            'exhaustive enumeration of snapshot points (every state entry, every pause placement, construction, end) x '
+            'serialisation media x loaders over generated programs, save-load-save comparison on the real code',
+            'Every generated Process program x input dictionary and a WorkChain with if/while/ctx is run on the '
+            'deterministic loop under the default schedule and with one pause before every tick; at construction, every '
+            'state entry, when paused and at the end a Bundle is taken and sent through deepcopy / pickle / yaml with the '
+            'default or a custom loader, loaded on a fresh loop, saved again and compared key by key; the loaded process '
+            'must report the same pid, state, inputs, outputs, ctx, status, paused flag, creation time and outcome.',
+            'Bundles are compared after mapping exceptions to (type, args) and dropping the traceback text; work chains '
+            'waiting on in-memory futures cannot be saved and are excluded.', 'DESIGN.md 3 C07'),
     'C08': ('input-enumerator',
             'exhaustive enumeration of crash-point subsets (checkpoint, abandon, restore on a fresh loop) over generated '
             'Process programs and WorkChain outlines x decision sequences, differential against the uninterrupted run',
